@@ -72,6 +72,7 @@ def validate(E, seed, tier):
 
 
 META = {
+    "glue": ['groupby_lib/groupby/numba.py::_apply_group_method_single_chunk', 'groupby_lib/groupby/numba.py::_build_target_for_groupby', 'groupby_lib/groupby/numba.py::_chunk_args_for_chunked_values', 'groupby_lib/groupby/numba.py::_chunk_args_for_unchunked_values', 'groupby_lib/groupby/numba.py::_chunk_groupby_args', 'groupby_lib/groupby/numba.py::_group_func_wrap', 'groupby_lib/groupby/numba.py::combine_chunk_results_for_factorized_key', 'groupby_lib/groupby/numba.py::group_count', 'groupby_lib/groupby/numba.py::group_mean', 'groupby_lib/groupby/numba.py::group_size', 'groupby_lib/groupby/numba.py::group_sum', 'groupby_lib/util.py::_cast_timestamps_to_ints', 'groupby_lib/util.py::_null_value_for_numpy_type', 'groupby_lib/util.py::check_data_inputs_aligned', 'groupby_lib/util.py::jit_is_null', 'groupby_lib/util.py::parallel_map'],
     "bounds": {"quick": {"N": 4, "G": 2, "positions": "L in {1,3}", "slices": "start/stop in {None,-5..5} x step in {None,1,2,-1,-2} (a third for sum/first/size, 10 for the rest)"},
                "thorough": {"N": 6, "G": 3, "positions": "L <= 3", "slices": "all start/stop in {None,-7..7} x step {None,1,2,-1,-2} for sum/first/size; 10 for the rest",
                             "extra": "N=8 unmasked and N=7 symbolic boolean mask for float64/int64"}},
